@@ -423,3 +423,42 @@
     {
         if e.len() == 0 { Seq::<Seq<u8>>::empty() } else if e.last().name == n { by_name(e.drop_last(), n).push(e.last().value) } else { by_name(e.drop_last(), n) }
     }
+
+    pub proof fn lemma_first_value_some_len(e: Seq<Hdr>, n: Seq<u8>)
+        ensures first_value(e, n) is Some ==> e.len() >= 1
+    {}
+    /// a first value found in a ++ k is still found when a grows at its end
+    pub proof fn lemma_first_value_prefix(a: Seq<Hdr>, k: Seq<Hdr>, a2: Seq<Hdr>, n: Seq<u8>)
+        requires a.is_prefix_of(a2), first_value(a + k, n) is Some
+        ensures first_value(a2 + k, n) is Some
+        decreases a.len()
+    {
+        if a.len() == 0 {
+            assert(a + k =~= k);
+            lemma_first_value_suffix(a2, k, n);
+        } else {
+            assert((a + k)[0] == a[0]);
+            assert((a2 + k)[0] == a[0]);
+            if a[0].name == n {
+            } else {
+                assert((a + k).subrange(1, (a + k).len() as int) =~= a.subrange(1, a.len() as int) + k);
+                assert((a2 + k).subrange(1, (a2 + k).len() as int) =~= a2.subrange(1, a2.len() as int) + k);
+                lemma_first_value_prefix(a.subrange(1, a.len() as int), k, a2.subrange(1, a2.len() as int), n);
+            }
+        }
+    }
+    pub proof fn lemma_first_value_suffix(a: Seq<Hdr>, k: Seq<Hdr>, n: Seq<u8>)
+        requires first_value(k, n) is Some
+        ensures first_value(a + k, n) is Some
+        decreases a.len()
+    {
+        if a.len() == 0 {
+            assert(a + k =~= k);
+        } else {
+            assert((a + k)[0] == a[0]);
+            if a[0].name != n {
+                assert((a + k).subrange(1, (a + k).len() as int) =~= a.subrange(1, a.len() as int) + k);
+                lemma_first_value_suffix(a.subrange(1, a.len() as int), k, n);
+            }
+        }
+    }
